@@ -271,6 +271,11 @@ def static_check(ctx, mode, total, extra="", select=None, oracle_relevant=None, 
                                       key=c.kind + v)
                     continue
             # ---- correspondence with the Coq model
+            if any("sat-call-cap-exceeded" in o for o in c.outs):
+                # cut by the harness after 3000 SAT calls and not flagged above (a LARGE framework, where thousands of
+                # calls can be legitimate): the driver does not replay such a case - nothing to compare
+                stats["capped_large_cases_not_replayed"] = stats.get("capped_large_cases_not_replayed", 0) + 1
+                continue
             m = mm.get(c.id)
             if m is None:
                 corr = corr or (c, "model produced no output")
